@@ -885,6 +885,8 @@ def cells_C05(tier, consts):
                           closes_loops="unwinding to the template constants N, M (complete)", replay="copy"))
     for k in range(0, 5 if tier == "quick" else 7):
         for m, t in ((1, "float"), (3, "double")):
+            if k == 6 and m == 3:
+                continue      # measured: sat times out after 600 s, cadical exhausts the 10 GB cap
             d = {"COPY_LAYER": 3, "DIMS_IN": 2, "DIMS_OUT": m, "OUT_SCALAR_T": t, "HILBERT_K": k}
             cells.append(Cell("copy.hilbert.elem.k%d.M%d" % (k, m), "copy@L=3,N=2", "h_hilbert_copy_elem", defines=d, enforce="hilbert_copy_elem",
                               unwind=max(k + 2, 4), object_bits=12, backends=(("sat", 600), ("cadical", 600)), kind="bounded",
